@@ -43,8 +43,13 @@ def sig(b):
     if outcome in ("ok", "err"):
         outcome = why or "hugealloc"
     key = r.get("key", "")
+    arch = r.get("arch")
+    # role of the plan item that produced the input: the field role for single-field items, else the archetype
+    # (prefix / chunkedit / pair / havoc). Huge-allocation findings are keyed by (requesting function, role), so
+    # a second unchecked allocation in the same function reached through another kind of field is not masked.
+    role = r.get("role") if arch in ("chunk", "array", "string") else arch
     return {"entry": r.get("entry"), "outcome": outcome, "key": key, "format": r.get("format"),
-            "role": r.get("role"), "field": r.get("field"), "arch": r.get("arch")}
+            "role": role, "field": r.get("field"), "arch": arch}
 
 
 def faulty_models(ctx):
